@@ -616,11 +616,14 @@ func runGrpcFlow(c *core.Ctx) {
 			}
 		}
 	}
+	// the interceptor and the unexported helpers it hands parts of the work to; a helper's parameter stands for
+	// the argument it receives
+	sreg := regionOf(srv)
 	argIs := func(call *ssa.Call, idx int, v ssa.Value) bool {
-		return idx < len(call.Call.Args) && identity(call.Call.Args[idx]) == v
+		return idx < len(call.Call.Args) && (identity(call.Call.Args[idx]) == v || identity(sreg.resolve(identity(call.Call.Args[idx]))) == v)
 	}
 	var fromErr, getCode, encode *ssa.Call
-	sx.EachInstr(srv, func(in ssa.Instruction) {
+	sreg.each(func(in ssa.Instruction) {
 		call, ok := in.(*ssa.Call)
 		if !ok {
 			return
@@ -643,7 +646,7 @@ func runGrpcFlow(c *core.Ctx) {
 	sawGetCode := getCode != nil && argIs(getCode, 0, herr)
 	c.Check(encode != nil && argIs(encode, 1, herr), "server: errors.EncodeError(ctx, err)", srv.Pos(), "the handler's error itself is encoded", "the encoded detail is not the handler's error itself")
 	// the status message is the error's own text
-	sx.EachInstr(srv, func(in ssa.Instruction) {
+	sreg.each(func(in ssa.Instruction) {
 		call, ok := in.(*ssa.Call)
 		if !ok || sx.Callee(call) == nil || sx.Callee(call).Name() != "New" || len(call.Call.Args) != 2 {
 			return
@@ -678,7 +681,7 @@ func runGrpcFlow(c *core.Ctx) {
 					return false
 				}
 				if callee.Name() == "GetGrpcCode" && len(x.Call.Args) == 1 {
-					if identity(x.Call.Args[0]) != errVal && x.Call.Args[0] != errVal {
+					if identity(x.Call.Args[0]) != errVal && x.Call.Args[0] != errVal && identity(sreg.resolve(identity(x.Call.Args[0]))) != errVal {
 						return false
 					}
 					if errVal == herr {
@@ -708,7 +711,7 @@ func runGrpcFlow(c *core.Ctx) {
 					return false
 				}
 				for j, a := range x.Call.Args {
-					if (identity(a) == errVal || a == errVal) && j < len(callee.Params) {
+					if (identity(a) == errVal || a == errVal || identity(sreg.resolve(identity(a))) == errVal) && j < len(callee.Params) {
 						okAll := true
 						for _, r := range sx.Returns(callee) {
 							if len(r.Results) != 1 || !codeExpr(r.Results[0], dominatingLits(r.Block()), callee.Params[j], d+1) {
@@ -725,11 +728,11 @@ func runGrpcFlow(c *core.Ctx) {
 			}
 			return false
 		}
-		codeOK := codeExpr(call.Call.Args[0], dominatingLits(call.Block()), herr, 0)
+		codeOK := codeExpr(call.Call.Args[0], sreg.lits(call.Block()), herr, 0)
 		c.Check(codeOK, "server: status.New(code, ...) for a non-nil error", call.Pos(), "the code is never codes.OK (the error's own code, replaced when it is OK)",
 			"the status for a non-nil handler error is built with the error's code unchecked: for an error carrying codes.OK (WrapWithGrpcCode(err, codes.OK)) gRPC refuses the details - the interceptor panics - and an OK status would report success")
 		msg, isCall := call.Call.Args[1].(*ssa.Call)
-		ok2 := isCall && msg.Call.IsInvoke() && msg.Call.Method.Name() == "Error" && msg.Call.Value == herr
+		ok2 := isCall && msg.Call.IsInvoke() && msg.Call.Method.Name() == "Error" && (msg.Call.Value == herr || identity(sreg.resolve(identity(msg.Call.Value))) == herr)
 		c.Check(ok2, "server: status.New(code, err.Error())", call.Pos(), "the status message is exactly the handler error's text", "the gRPC status message is not the handler error's Error() text itself (it is transformed first): the status can become unmarshalable or differ from the error")
 	})
 	c.Check(sawGetCode, "server: extgrpc.GetGrpcCode(err)", srv.Pos(), "code taken from the handler's error", "the gRPC code is not computed from the handler's error")
@@ -787,6 +790,16 @@ func runGrpcFlow(c *core.Ctx) {
 					}
 					if src == fromErr {
 						return true
+					}
+					if h := sx.Callee(src); h != nil && sreg.in[h] && h != srv {
+						// a helper of the interceptor: what it returns at that position
+						rets := sx.Returns(h)
+						for _, hr := range rets {
+							if x.Index >= len(hr.Results) || !okStatus(hr.Results[x.Index], d+1) {
+								return false
+							}
+						}
+						return len(rets) > 0
 					}
 					return sx.Callee(src) != nil && sx.Callee(src).Name() == "WithDetails"
 				}
